@@ -107,7 +107,7 @@ fn main() {
         engine_bin,
         replay,
         scale,
-        soft_limit: Duration::from_secs(if tier == Tier::Quick { 150 } else { 1500 }),
+        soft_limit: Duration::from_secs(std::env::var("VERIF_SOFT_LIMIT").ok().and_then(|s| s.parse::<u64>().ok()).unwrap_or(if tier == Tier::Quick { 150 } else { 1500 })),
     };
     report::init_output();
     // global watchdog: a run that takes several times its budget is inconclusive, never a violation
